@@ -150,6 +150,11 @@ static void run(const Script& s) {
                 PDU* l = layer_at(pkt.get(), (int)num(t[1]));
                 if (!l) { printf("N\n"); continue; }
                 printf("R %s\n", vacc::type_rows(*l).c_str());
+            } else if (op == "selffind" && pkt) {
+                // for every layer of the chain: find_pdu<its own class>() started at that layer must return that layer
+                std::string out = "F";
+                for (PDU* l = pkt.get(); l; l = l->inner_pdu()) { out += " "; out += std::to_string(vacc::self_find(*l)); }
+                printf("%s\n", out.c_str());
             } else if (op == "newcc") {
                 // a PDUCacher<T> around a T that carries inner layers of its own
                 PDU* p = 0;
